@@ -751,8 +751,36 @@ def _mutation_cases(rng, tier, batches):
                        (lambda st=st, hm=hm, seed=seed: chk_history(st, hm, seed)))
 
 
+def _large_index_cases(rng, tier):
+    """a transaction with 260 inputs: signed inputs at positions 254..259 — beyond one byte and beyond CPython's small-int
+    cache (-5..256), where `is` and `==` on ints part ways (seed C06-e1).  The commitment theorems hold for every index;
+    here the implementation is asked about those positions: own sequence / outpoint / output / lock time changes."""
+    n_in = 260
+    kinds = ["p2pkh"] * n_in
+    hts = [HT_STD[a % len(HT_STD)] for a in range(n_in)]
+    for j, (kind, ht) in zip(range(254, 260), [("p2pkh", 1), ("p2pkh", 2), ("p2pkh", 3), ("p2sh-ms", 0x82), ("p2pkh", 0x83), ("p2wpkh", 2)]):
+        kinds[j], hts[j] = kind, ht
+    if tier == "thorough":
+        for j in range(0, 254):
+            kinds[j] = KINDS[j % 5]
+    st, meta = make_signed(rng, kinds, hts, n_in)
+    yield PropCase("signed_valid", {"state": st, "meta": meta}, (lambda: chk_signed_valid(st, meta)))
+    for i in ([0, 1] + list(range(254, 260))):
+        cur = st["ins"][i]
+        other = 257 if i != 257 else 3
+        muts = [["seq", i, (cur["seq"] + 1) % 2 ** 32], ["seq", i, 0 if cur["seq"] != 0 else 7], ["seq", i, _flip(cur["seq"], 31)],
+                ["prev_index", i, (cur["index"] + 1) % 2 ** 32], ["prev_hash", i, _flip_hex(cur["hash"], rng)],
+                ["seq", other, (st["ins"][other]["seq"] + 1) % 2 ** 32], ["prev_index", other, (st["ins"][other]["index"] + 1) % 2 ** 32],
+                ["out_amount", i, st["outs"][i]["amount"] + 1], ["out_amount", other, st["outs"][other]["amount"] + 1],
+                ["lock", (st["lock"] + 1) % 2 ** 32], ["spent_amount", i, st["unspents"][i]["amount"] + 1]]
+        for m in muts:
+            yield PropCase("mutation", {"state": st, "meta": meta, "mutation": m, "input": i},
+                           (lambda m=m, i=i: chk_mutation(st, meta, m, i)))
+
+
 def prop_cases(rng, tier):
     yield from _mutation_cases(rng, tier, _signed_batches(rng, tier))
+    yield from _large_index_cases(rng, tier)
     for sc, us in [("51", "00"), ("51", ""), ("0151", "76a914" + "00" * 20 + "88ac")]:
         yield PropCase("coinbase_unspent", {"script": sc, "unspent_script": us}, (lambda sc=sc, us=us: chk_coinbase_unspent(sc, us)))
 
